@@ -12,9 +12,8 @@ C04 — generator side of REST transcoding.
   gapic/utils/case.py             to_camel_case                   → `camelKey` (lower snake_case names)
   protobuf                        ToJsonName                      → `toJsonName` (external; T2/T3)
 
-Strings are `List Char`.  The model FOLLOWS THE CODE: `queryParams` reads the *primary* binding only,
-sees only top-level `{word}` variables of the *un-rewritten* url and compares them with the
-*disambiguated* field names; `fixBody` does not suffix a reserved word that already ends in `_`.
+Strings are `List Char`.  The model FOLLOWS THE CODE: `queryParams` reads the *primary* binding only and sees only top-level
+`{word}` variables of the *un-rewritten* url (disambiguated before the comparison since 151ee10).
 -/
 namespace GapicModel.Model.Http
 
@@ -170,10 +169,11 @@ structure HttpRule where
   body : Option Str
 deriving Repr, DecidableEq
 
-/-- `body = http_rule.body or None; if body in RESERVED_NAMES and not body.endswith("_"): body += "_"` -/
+/-- `body = http_rule.body or None; if body in RESERVED_NAMES: body += "_"` (since the C04 `fix:` commit
+3aedaba also for the reserved word that ends in an underscore) -/
 def fixBody (b : Str) : Option Str :=
   if b = [] then none
-  else if b ∈ reserved ∧ b.getLast? ≠ some '_' then some (b ++ ['_'])
+  else if b ∈ reserved then some (b ++ ['_'])
   else some b
 
 /-- `HttpRule.try_parse_http_rule` -/
@@ -181,7 +181,7 @@ def parseHttpRule (r : RulePb) : Option HttpRule :=
   match r.pattern with
   | none => none
   | some p =>
-    if p = "custom".toList then none
+    if p = ['c', 'u', 's', 't', 'o', 'm'] then none
     else if r.uri = [] then none
     else some ⟨p, convertUri r.uri, fixBody r.body⟩
 
@@ -215,16 +215,18 @@ def httpOpt (m : MethodD) : Option (Str × Option Str) :=
   match m.http.pattern with
   | none => none
   | some p =>
-    if p = "custom".toList then none
+    if p = ['c', 'u', 's', 't', 'o', 'm'] then none
     else some (m.http.uri, if m.http.body = [] then none else some m.http.body)
 
-/-- `Method.query_params`: `set(self.input.fields) - (set(path_params) | {body})`, or nothing for `*` -/
+/-- `Method.query_params`: `set(self.input.fields) - ({fix(p) for p in path_params} | {body})`, or nothing for
+`*`.  Since the C04 `fix:` commit 151ee10 the path variable names are disambiguated like the field names
+before the subtraction; the body name still is not (a body is a message: its `{}` default is never sent). -/
 def queryParams (m : MethodD) : List Str :=
   match httpOpt m with
   | none => []
   | some (url, body) =>
     if body = some ['*'] then []
-    else (rtNames m).filter (fun n => !(pathParams url).contains n && !(body == some n))
+    else (rtNames m).filter (fun n => !((pathParams url).map fixSeg).contains n && !(body == some n))
 
 /-! ### names on the wire -/
 
@@ -261,14 +263,15 @@ def LowerSnake (s : Str) : Prop := ∀ c ∈ s, c = '_' ∨ c.isLower = true ∨
 (`bytes(0)` renders as `b''`; `bool(0)` as `False` → "false"; `float(0)` → "0.0".) -/
 def defaultText : Kind → Option Str
   | .str => some []
-  | .bytes => some "b''".toList
-  | .bool => some "false".toList
-  | .float => some "0.0".toList
-  | .int => some "0".toList
+  | .bytes => some ['b', '\'', '\'']
+  | .bool => some ['f', 'a', 'l', 's', 'e']
+  | .float => some ['0', '.', '0']
+  | .int => some ['0']
   | .enum => none
   | .msg => none
 
-/-- for required fields whose (disambiguated) name is in `query_params`: (lowerCamel key, default) -/
+/-- for required fields (repeated ones included) whose (disambiguated) name is in `query_params`:
+(lowerCamel key, default of the element kind) -/
 def requiredDefaults (m : MethodD) : List (Str × Option Str) :=
   (m.fields.filter (fun f => f.required && (queryParams m).contains (fixSeg f.name))).map
     (fun f => (camelKey (fixSeg f.name), defaultText f.kind))
